@@ -326,7 +326,9 @@ func main() {
 				case 3:
 					got, want = outcomeBool(func() bool { return dilithiumjs.IsValidDilithiumAddress(s) }), "false"
 				case 4:
-					got, want = outcomeBool(func() bool { return xmssjs.XMSSVerify(string(xs[0].msg), s, xPK) && xmssjs.XMSSVerify(string(xs[0].msg), xSig, s) }), "false"
+					got, want = outcomeBool(func() bool {
+						return xmssjs.XMSSVerify(string(xs[0].msg), s, xPK) && xmssjs.XMSSVerify(string(xs[0].msg), xSig, s)
+					}), "false"
 				case 5:
 					got, want = outcomeStr(func() string { return xmssjs.GetXMSSAddressFromPK(s) }), "value:"
 				case 6:
